@@ -193,4 +193,26 @@ theorem prep_sToM {api : Int} {d : Dec} {a : Args} (hI : Inv api d) (hN : d.nCha
     rw [(step2'_ok ha hapi _ _).2.2.2.1, (prepStereo_mono _ a h1).1, (prepStereo_mono _ a h1).2]
     exact key d1.ch0 (Or.inr rfl) hs
 
+theorem readFlags_ch1_mono (d : Dec) (a : Args) (o : Orc) (h1 : a.nChannelsInternal = 1) : (readFlags d a o).1.ch1 = d.ch1 := by
+  unfold readFlags
+  have : ¬ a.nChannelsInternal = 2 := by omega
+  split
+  · dsimp only
+  · rfl
+
+theorem sideReset_ch1_mono (d : Dec) (a : Args) (dom : Int) (h1 : a.nChannelsInternal = 1) : (sideReset d a dom).1.ch1 = d.ch1 := by
+  unfold sideReset
+  have : ¬ (a.nChannelsInternal = 2 ∧ dom = 0 ∧ d.prev_decode_only_middle = 1) := by omega
+  rw [if_neg this]
+
+theorem frames_ch1_mono (d : Dec) (a : Args) (o : Orc) (hs : Bool) (h1 : a.nChannelsInternal = 1) : (frames d a o hs).d.ch1 = d.ch1 := by
+  unfold frames
+  have : ¬ a.nChannelsInternal = 2 := by omega
+  dsimp only
+  rw [if_neg this]
+
+theorem tFr_ch1_mono (p : Prep) (a : Args) (o : Orc) (h1 : a.nChannelsInternal = 1) : (tFr p a o).d.ch1 = p.d.ch1 := by
+  unfold tFr tD2 tD1
+  rw [frames_ch1_mono _ _ _ _ h1, sideReset_ch1_mono _ _ _ h1, readFlags_ch1_mono _ _ _ h1]
+
 end Opus.SilkApi
